@@ -9,6 +9,10 @@ import codec
 
 LEVEL = "model_checking"
 
+# a body that reads as a complete data set of template 256 (two 6-octet records) followed by octets that read as
+# another set header: a decoder that resumes inside a skipped or cut set decodes it
+NESTED = [9, 9, 9, 9, 1, 0, 0, 16, 7, 7, 7, 7, 7, 7, 8, 8, 8, 8, 8, 8, 1, 0, 0, 10, 6, 6, 6, 6, 6, 6, 0, 0]
+
 # IPFIX: unknown template ids, reserved ids 4..255, a known template using an element that is
 # missing from the information model (id 300, announced in an extra first message of the history)
 def ipfix_inserts():
@@ -17,7 +21,8 @@ def ipfix_inserts():
         return [sid >> 8, sid & 255, n >> 8, n & 255] + body
     return [s(999, []), s(999, [7]), s(999, [1, 2, 3, 4, 5]), s(40000, list(range(64))),
             s(4, []), s(17, [0, 0]), s(255, [0, 9, 0, 8, 1, 1, 1, 1, 2]), s(100, list(range(1, 34))),
-            s(300, [10, 0, 0, 1, 9, 9, 9, 9]), s(300, [10, 0, 0, 1, 9, 9, 9, 9, 10, 0, 0, 2, 8, 8, 8, 8])]
+            s(300, [10, 0, 0, 1, 9, 9, 9, 9]), s(300, [10, 0, 0, 1, 9, 9, 9, 9, 10, 0, 0, 2, 8, 8, 8, 8]),
+            s(999, NESTED), s(300, NESTED)]
 
 TBAD_MSG = [0, 10, 0, 32, 0, 0, 0, 0, 0, 0, 0, 0, 0, 0, 0, 0,      # header
             0, 2, 0, 16, 1, 44, 0, 2, 0, 8, 0, 4, 39, 15, 0, 4]    # template 300: elements 8 and 9999
@@ -47,6 +52,19 @@ def judge(ctx, proto, job, r, want_n):
                               "(%s, %d records instead of %d%s)" % (proto, job["inserts"][ui][:8], pos, o["st"], o["n"], full["n"],
                                                                      "" if o["n"] != full["n"] else ", contents differ"),
                               {"job": job, "position": pos, "inserted": job["inserts"][ui]})
+    for pos, trow in enumerate(r.get("ins_trunc") or []):
+        for ti, cuts in enumerate(trow):
+            ui = job["trunc_inserts"][ti]
+            whole = r["ins"][pos][ui]
+            for k, o in enumerate(cuts):
+                ctx.count(key + ["ins_trunc", pos, ui, k], nontrivial=full["n"] > 0)
+                if o["st"] == "panic":
+                    ctx.violation("%s decoder panicked on a cut datagram: %s" % (proto, o["panic"]), {"job": job, "position": pos, "cut": k})
+                elif o["rd"] != whole["rd"][:len(o["rd"])]:
+                    ctx.violation("%s: a datagram holding an undecodable set, cut at octet %d of %d, yields records that are not a "
+                                  "prefix of the complete datagram's (%d records, complete: %d)"
+                                  % (proto, k, len(cuts) - 1, o["n"], whole["n"]),
+                                  {"job": job, "position": pos, "inserted": job["inserts"][ui], "cut": k}, key="trunc-fabricates")
     for k, o in enumerate(r["trunc"]):
         ctx.count(key + ["trunc", k], nontrivial=full["n"] > 0)
         if o["st"] == "panic":
@@ -63,7 +81,8 @@ def v9_inserts():
         return [sid >> 8, sid & 255, n >> 8, n & 255] + body
     return [s(999, []), s(999, [7]), s(999, [1, 2, 3, 4, 5]), s(40000, list(range(64))),
             s(4, []), s(2, [7, 7, 7, 7, 7, 7, 7, 7]), s(3, [0, 0]), s(255, [0, 9, 0, 8, 1, 1, 1, 1, 2]), s(100, list(range(1, 34))),
-            s(300, [10, 0, 0, 1, 9, 9, 9, 9]), s(300, [10, 0, 0, 1, 9, 9, 9, 9, 10, 0, 0, 2, 8, 8, 8, 8])]
+            s(300, [10, 0, 0, 1, 9, 9, 9, 9]), s(300, [10, 0, 0, 1, 9, 9, 9, 9, 10, 0, 0, 2, 8, 8, 8, 8]),
+            s(999, NESTED), s(300, NESTED)]
 
 TBAD_MSG_V9 = [0, 9, 0, 1] + [0] * 16 + [0, 0, 0, 16, 1, 44, 0, 2, 0, 8, 0, 4, 39, 15, 0, 4]
 
@@ -83,7 +102,8 @@ def part(ctx, proto, thorough):
         if (ci + ctx.seed) % stride:
             continue
         jobs.append({"exp": exps[ci % len(exps)], "hist": [tbad] + c["hist"], "hdr": codec.enc_hdr(proto, c["hdr"]),
-                     "sets": c["sets"], "inserts": ins, "truncate": True})
+                     "sets": c["sets"], "inserts": ins, "truncate": True,
+                     "trunc_inserts": [len(ins) - 2, len(ins) - 1] if (thorough or len(jobs) % 5 == 0) else []})
         wants.append(len(c["want"]))
     res = flowjobs.run_jobs(ctx, drv, codec.P[proto]["variants"], jobs, env={"VERIF_ELEMENTS_DIR": eldir}, tag="v_" + proto, timeout=5000)
     for job, r, w in zip(jobs, res, wants):
